@@ -21,6 +21,11 @@ CHECKS = {
    note='State = one recv() call keyed by (bytes consumed, output, canonicalised continuation frames); the canonicaliser is validated differentially on every 16th merged hit (traces_validated_against_impl) and a failure falls back to cut-bounded enumeration. Sizes between SIZE and SIZE+slack are not generated.',
    technique='explicit-state model checking of the real server over all segmentations of grammar-generated streams (continuation-merged re-execution) with a reference session automaton',
    design='5/C09'),
+ 'C07': dict(level='model_checking', engine='E2-seq',
+   text='Breadth-first search to closure over the real SmtpEdge+SmtpSession+Server driven one client event at a time (31 events incl. malformed variants x validator verdicts accept/450/550/421 for each callback reached, 4 banner verdicts, 12 configurations auth x TLS x SIZE); a state is the event history replayed on fresh objects, canonicalised from the real session flags, extension set and envelope under construction, paired with the state of a reference automaton that judges every transition (reply classes, callback order and arguments, hand-off envelope, session end on 221/421).  The state merge is cross-checked by a two-representative differential check and by exploring all event sequences up to depth 2-3 (4 in thorough) without merging.',
+   note='One event per recv() (segmentation is C09); STARTTLS with an open transaction and AUTH PLAIN in clear text are left to C08; transparent fake TLS, fake PTR lookup, recording queue; commands with non-UTF-8 arguments only need an error reply and no callback.',
+   technique='explicit-state BFS over the real server state graph with a reference automaton as oracle',
+   design='5/C07'),
 }
 
 def main():
